@@ -36,7 +36,8 @@ def cases(draw):
             "ahow": draw(st.sampled_from(["ref", "fiber", "unowned", "U"])),
             "plan": list(draw(st.permutations(["leave", "assign", "assign", "acc", "default", "writethendefault"])))[
                 :draw(st.integers(1, 6))],
-            "descend": draw(st.lists(st.sampled_from([True, True, True, False]), min_size=1, max_size=4)),
+            "descend": draw(st.lists(st.sampled_from(["descend", "descend", "descend", "skip", "reserve"]),
+                                    min_size=1, max_size=4)),
             "val": draw(gen.nondefault_values(default)),
             "sp": draw(st.one_of(st.none(), st.integers(0, 8)))}
 
@@ -63,6 +64,7 @@ def check(case, rec):
         a = a_t.getRoot()
     afmt = "U" if case["ahow"] == "U" else "C"
     plan = machine.Plan(case["plan"], case["descend"], case["val"], default)
+    plan.shape = list(shape)
 
     a_snap = observe.snap(a)
     a_ranks = observe.rank_lists(a_t) if a_t else None
@@ -76,6 +78,7 @@ def check(case, rec):
     writes = {}                 # point -> final value
     created_removed = [0]
     retained = [0]
+    reserved = set()
 
     def walk(ztree, atree, lvl, prefix, fmt):
         zmap = {c: ch for c, ch in ztree}
@@ -92,8 +95,11 @@ def check(case, rec):
                 if new != default and act in ("assign", "acc"):
                     retained[0] += 1
             else:
-                if plan.descend(pt):
+                what = plan.descend(pt)
+                if what == "descend":
                     walk(zmap.get(c, []), ach if ach is not None else [], lvl + 1, pt, "C")
+                elif what == "reserve":
+                    reserved.add(pt)          # the body itself builds structure below: it stays
                 elif c not in zmap:
                     created_removed[0] += 1
 
@@ -182,9 +188,15 @@ def check(case, rec):
         bmap = {c: ch for c, ch in before}
         for c, ch in after:
             pt = prefix + (c,)
+            if pt in reserved:
+                # structure the body created by hand below the offered sub-fiber is the body's business
+                if len(ch) == 0:
+                    raise Violation("reserved-lost", f"the body reserved a path below {pt} but the sub-fiber "
+                                    f"is empty after the loop")
+                continue
             if c not in bmap:
                 sub = {p: v for p, v in want.items() if p[:len(pt)] == pt}
-                if not sub:
+                if not sub and not any(r[:len(pt)] == pt for r in reserved):
                     raise Violation("leftover", f"the loop created {pt} and left it behind although its final "
                                     f"value is the default (stored: {ch})")
                 if lvl < d - 1:
@@ -193,6 +205,17 @@ def check(case, rec):
                 leftovers(bmap[c], ch, lvl + 1, pt)
 
     leftovers(z_before_tree, after_tree, 0, ())
+    # "coordinates the body left at the default leave no element behind": at every leaf point the body
+    # was offered, no explicit default is stored afterwards (whether the element existed before or not)
+    for pt, lvl in expected_offers:
+        if lvl == d - 1:
+            so = machine_stored(z, pt)
+            if so is not None and Payload.get(so) == default:
+                raise Violation("explicit-default-left", f"the body left {pt} at the default but an element holding "
+                                f"the default is stored there after the loop (z before: {z_before_tree})")
+    for pt in reserved:
+        if machine_stored(z, pt) is None:
+            raise Violation("reserved-lost", f"the body reserved a path below {pt} but the loop removed the sub-fiber")
     # coordinates of z outside a: same objects, same snapshot
     offered_top = {pt[0] for pt, lvl in expected_offers if lvl == 0}
     for c, p in z_before_objs.items():
@@ -216,6 +239,7 @@ def check(case, rec):
     rec.cls(f"depth{d}")
     rec.cls("created-removed", created_removed[0] > 0)
     rec.cls("z-empty", not z_before_tree)
+    rec.cls("body-reserves-structure", bool(reserved))
     rec.nontrivial(created_removed[0] > 0 and retained[0] > 0 and bool(cont_before))
 
 
